@@ -79,8 +79,10 @@ open VaxisModel.Model.ParserReaderInterp in
     { UnreadRune; ReadByte; r = rune(b) }` with both error returns; `if err != nil { return eof }`;
     `return r`), gives for **every** reader state (any buffer contents, any reads still to come)
     exactly what `ParserIO.readRune` — the function all theorems about the reading side are stated
-    over — gives.  Not a pin of the text: a reordering that keeps the meaning keeps the theorem, a
-    change of a condition or a missing `UnreadRune` breaks it. -/
+    over — gives.  (Proved through the skeleton the model transcribes, so any change of the statement
+    list is flagged here; the correspondence driver *executes* whatever was extracted, so a change
+    that keeps the meaning keeps the correspondence run clean, one that does not — a changed
+    condition, a missing `UnreadRune` — shows there as well.) -/
 theorem readRune_body_eq_model (rd : Rd) :
     readRuneI Gen.ParserReader.readRuneBody rd = some (readRune rd) := by
   have h : Gen.ParserReader.readRuneBody = Model.ParserReaderSk.handReadRune true := by decide
